@@ -1,7 +1,7 @@
 #!/usr/bin/env python3
 """Sensitivity campaign: applies one property-breaking mutation at a time to /repo's working tree,
 runs the named quick checks, records whether each reported a VIOLATION, and reverts.
-usage: tools/mutations.py [name-substring ...]      results: /verif/evidence/sensitivity.json
+usage: tools/mutations.py [name-substring ...]      results: /verif/validation/sensitivity.json
 /repo must have no modified tracked files (apart from the two pre-existing 0-byte test data files)."""
 import json, subprocess, sys, os, time
 
@@ -28,7 +28,15 @@ M = [
  ("c14-reconcile-block-ignores-inputs", "C14", "pool/src/pool.rs", "\t\t\t!x.tx.kernels().iter().any(|y| block.kernels().contains(y))\n\t\t\t\t&& !tx_inputs.iter().any(|y| block_inputs.contains(y))", "\t\t\tlet _ = (&tx_inputs, &block_inputs);\n\t\t\t!x.tx.kernels().iter().any(|y| block.kernels().contains(y))", ["C14"]),
  ("c16-skip-output-segment-validation", "C16", "chain/src/txhashset/desegmenter.rs", "\t\t\tself.bitmap_accumulator.root(), // Other root\n\t\t\tfalse,\n\t\t)?;\n\t\tself.cache_output_segment(segment);", "\t\t\tself.bitmap_accumulator.root(), // Other root\n\t\t\tfalse,\n\t\t)\n\t\t.ok();\n\t\tself.cache_output_segment(segment);", ["C16"]),
  ("c19-negotiate-max", "C19", "p2p/src/handshake.rs", "std::cmp::min(self.protocol_version, other)", "std::cmp::max(self.protocol_version, other)", ["C19"]),
- ("c19-limit-ge", "C19", "p2p/src/codec.rs", "\t\t\t\tif msg_len > max_len {\n\t\t\t\t\terror!(\n\t\t\t\t\t\t\"Too large read {:?}", "\t\t\t\tif msg_len >= max_len {\n\t\t\t\t\terror!(\n\t\t\t\t\t\t\"Too large read {:?}", ["C19"]),
+ ("c19-limit-ge", "C19", "p2p/src/msg.rs", "\t\t\t\tlet max_len = max_msg_size(msg_type) * 4;\n\t\t\t\tif msg_len > max_len {", "\t\t\t\tlet max_len = max_msg_size(msg_type) * 4;\n\t\t\t\tif msg_len >= max_len {", ["C19"]),
+ ("c19-limit-times-eight", "C19", "p2p/src/msg.rs", "\t\t\t\tlet max_len = max_msg_size(msg_type) * 4;\n\t\t\t\tif msg_len > max_len {", "\t\t\t\tlet max_len = max_msg_size(msg_type) * 8;\n\t\t\t\tif msg_len > max_len {", ["C19"]),
+ ("c01-drop-both-sum-checks", "C01", "core/src/core/block.rs", "\t\tself.verify_kernel_sums(\n\t\t\tself.header.overage(),\n\t\t\tself.block_kernel_offset(prev_kernel_offset.clone())?,\n\t\t)?;\n\n\t\tOk(())", "\t\tlet _ = self.block_kernel_offset(prev_kernel_offset.clone())?;\n\n\t\tOk(())", ["C01"], [("chain/src/pipe.rs", "\tlet (utxo_sum, kernel_sum) =\n\t\t(block_sums, b as &dyn Committed).verify_kernel_sums(overage, offset)?;", "\tlet (utxo_sum, kernel_sum) = match (block_sums.clone(), b as &dyn Committed).verify_kernel_sums(overage, offset) {\n\t\tOk(x) => x,\n\t\tErr(_) => (block_sums.utxo_sum, block_sums.kernel_sum),\n\t};")]),
+ ("c14-no-reconcile-on-block", "C14", "pool/src/transaction_pool.rs", "\t\tself.txpool.reconcile_block(block);\n\t\tself.txpool.reconcile(None, &block.header)?;", "\t\tself.txpool.reconcile_block(block);", ["C14"]),
+ ("c14-stempool-not-reconciled", "C14", "pool/src/transaction_pool.rs", "\t\t\tself.stempool.reconcile(txpool_tx, &block.header)?;", "\t\t\tlet _ = txpool_tx;", ["C14"]),
+ ("c14-fee-check-dropped", "C14", "pool/src/transaction_pool.rs", "\t\tif tx.shifted_fee() < tx.accept_fee() {", "\t\tif false && tx.shifted_fee() < tx.accept_fee() {", ["C14"]),
+ ("c11-segment-prealloc-uncapped", "C11", "core/src/core/pmmr/segment.rs", "\tlet mut items = Vec::with_capacity(min(count, SEGMENT_READ_PREALLOC_ITEMS) as usize);", "\tlet mut items = Vec::with_capacity(count as usize);", ["C11"]),
+ ("c11-peer-addrs-cap-removed", "C11", "p2p/src/msg.rs", "\t\tif peer_count > MAX_PEER_ADDRS {", "\t\tif false && peer_count > MAX_PEER_ADDRS {", ["C11"]),
+ ("c15-bitmap-rebuild-from-max-idx", "C15", "chain/src/txhashset/txhashset.rs", "\t\tlet min_idx = output_idx.first().cloned().unwrap_or(0);", "\t\tlet min_idx = output_idx.last().cloned().unwrap_or(0);", ["C15"]),
  ("c11-drop-read-multi-cap", "C11", "core/src/ser.rs", "\tif count > 1_000_000 {\n\t\treturn Err(Error::TooLargeReadErr);\n\t}\n\n\tlet res: Vec<T> = IteratingReader", "\tlet res: Vec<T> = IteratingReader", ["C11"]),
  ("c18-enter-tx-ignores-resizing", "C18", "store/src/lmdb.rs", "\t\t\tif !state.resizing.load(Ordering::Acquire) || nested_tx {", "\t\t\tif true || !state.resizing.load(Ordering::Acquire) || nested_tx {", ["C18"]),
  ("c18-resize-despite-open-txs", "C18", "store/src/lmdb.rs", "\t\tif self.open_txs_count() != 0 {", "\t\tif false && self.open_txs_count() != 0 {", ["C18"]),
@@ -46,17 +54,25 @@ def repo_clean():
 
 def main():
     sel = sys.argv[1:]
-    path = "/verif/evidence/sensitivity.json"
+    path = "/verif/validation/sensitivity.json"
     results = json.load(open(path)) if os.path.exists(path) else {}
     if not repo_clean():
         print("repo has modified tracked files; refusing"); return 2
-    for name, prop, f, old, new, checks in M:
+    for m in M:
+        name, prop, f, old, new, checks = m[:6]
+        extra = m[6] if len(m) > 6 else []
         if sel and not any(x in name for x in sel):
             continue
         src = open(R + f).read()
         if src.count(old) != 1:
             print(f"{name}: pattern found {src.count(old)} times in {f}; skipped"); results[name] = {"property": prop, "error": "pattern"}; continue
+        bad = [ef for ef, eo, en in extra if open(R + ef).read().count(eo) != 1]
+        if bad:
+            print(f"{name}: extra pattern not found in {bad}; skipped"); results[name] = {"property": prop, "error": "pattern"}; continue
         open(R + f, "w").write(src.replace(old, new))
+        saved = []
+        for ef, eo, en in extra:
+            es = open(R + ef).read(); saved.append((ef, es)); open(R + ef, "w").write(es.replace(eo, en))
         entry = {"property": prop, "file": f, "checks": {}}
         try:
             for c in checks:
@@ -71,6 +87,8 @@ def main():
                 print(f"{name}: {c} -> {status} ({len(viol)} violations) {what[:1] or herr[:1]}")
         finally:
             open(R + f, "w").write(src)
+            for ef, es in saved:
+                open(R + ef, "w").write(es)
         results[name] = entry
         json.dump(results, open(path, "w"), indent=1)
     assert repo_clean()
